@@ -52,7 +52,13 @@ RULE = (
     "fragmentations (byte by byte; byte by byte with a wake-up of the input callback that reads nothing "
     "after every read) plus 1-6 generated ones (sorted cut positions, each with a flag 'the completion "
     "timeout fires here' and a flag 'the input callback runs once more here and reads nothing') x "
-    "encoding in utf-8 / euc-jp / iso8859-1. Exhaustive sweeps: every input_sequences entry x 3 "
+    "encoding in utf-8 / euc-jp / iso8859-1 x the input timeouts of the Screen: never set (one case in four), or "
+    "set_input_timeouts(max_wait, complete_wait) called before the first read with complete_wait in 0 / 0.0 / "
+    "0.125 / 1 / 0.01 / 1e-06 / 2.5 / 30.0 and max_wait in None / 0 / 0.05 / 2.0, for some cases called again "
+    "with other values before the second and third read. Exhaustive sweeps: every one of these complete_wait "
+    "values x every recognised item (followed by a printable byte) x 3 encodings, byte by byte, cut after the first "
+    "byte with the timeout firing and cut before the last byte with a wake-up and the timeout, and every ordered "
+    "pair of values with the second one set between two reads that end inside a sequence; every input_sequences entry x 3 "
     "encodings x every single cut x (plain / timeout / wake-up without input / both); every "
     "independently written xterm form likewise; X10 mouse with every value of each of its three bytes; "
     "SGR mouse button codes 0..127; an ESC byte, and two, in front of every input_sequences entry, every "
@@ -74,6 +80,15 @@ ASSUMPTIONS = [
     "documented override point) is substituted to return the next fragment, get_available_raw_input and "
     "parse_input are the real ones",
     "a fake event loop owns the completion alarm: 'timeout fires' = every alarm still armed is called",
+    "'the completion timeout' is the Screen's configurable complete_wait (set_input_timeouts: 'floating point "
+    "numbers of seconds', default 0.125): every non-negative int or float is a valid delay, zero included (the "
+    "timeout expires at once: 'do not wait for the rest of a sequence'). The statement's clauses hold for every "
+    "such value: bytes still pending after a read are covered by an alarm armed with exactly the delay set by the "
+    "latest set_input_timeouts call (the harness keeps its own record of it), when the case lets it fire they are "
+    "decoded as they stand, and the events are those a Screen with default timeouts produces for the same cuts "
+    "and firings. Whether the remainder of a sequence arrives before or after the alarm of a zero timeout is "
+    "dispatched is the event loop's choice, so with complete_wait 0 both schedules are generated like for any "
+    "other value. max_wait / resize_wait only govern get_input()'s blocking and must not influence decoding",
     "a read that returns no bytes is one of the 'successive reads' of the statement: the posix "
     "_read_raw_input returns an empty bytearray whenever the watch callback was woken by another "
     "descriptor (resize pipe, gpm) and get_input() polls with max_wait; such a wake-up happens before the "
@@ -181,14 +196,44 @@ def _norm_cuts(cuts, n):
     return sorted(d.items())
 
 
-def run_stream(stream: bytes, cuts=()):
-    """Feed `stream` cut at `cuts` ([(pos, flags)] normalised, see _norm_cuts).  Returns (events,
+DEFAULT_COMPLETE_WAIT = 0.125  # set_input_timeouts' documented default
+# The configurable part of "the completion timeout": Screen.set_input_timeouts(max_wait, complete_wait),
+# "floating point numbers of seconds".  Every value is a valid delay: zero ("do not wait for the rest of
+# a sequence": the timeout expires at once) as int and as float, the default spelled out, an int, tiny and
+# large floats.  max_wait (None = wait forever) is set by the same call.
+COMPLETE_WAITS = [0, 0.0, DEFAULT_COMPLETE_WAIT, 1, 0.01, 1e-06, 2.5, 30.0]
+MAX_WAITS = [None, 0, 0.05, 2.0]
+
+
+def _norm_waits(waits):
+    """case["waits"]: entry i is None (no call) or [max_wait, complete_wait], the arguments of a
+    Screen.set_input_timeouts call made before the i-th read (i = 0: after construction, before any input;
+    later ones: an option changed while bytes may be pending).  Reads beyond the list keep the last setting."""
+    out = []
+    for w in waits or ():
+        if w is None:
+            out.append(None)
+            continue
+        mw, cw = w
+        if isinstance(cw, bool) or not isinstance(cw, (int, float)) or not 0 <= cw < 1e6:
+            raise Discard()
+        if mw is not None and (isinstance(mw, bool) or not isinstance(mw, (int, float)) or not 0 <= mw < 1e6):
+            raise Discard()
+        out.append((mw, cw))
+    return out
+
+
+def run_stream(stream: bytes, cuts=(), waits=()):
+    """Feed `stream` cut at `cuts` ([(pos, flags)] normalised, see _norm_cuts) to a Screen whose input
+    timeouts are set as `waits` says (see _norm_waits; empty: never set, the defaults).  Returns (events,
     effective) where effective is the list of cut positions at which a timeout actually flushed
     pending bytes.  Checks oracle 2 (conservation) and the alarm bookkeeping after every run of the
     input callback (with or without new bytes); urwid exceptions propagate."""
     scr = _FeedScreen(input=_input_file(), output=io.StringIO())
     loop = _FakeLoop()
     events, raws = [], []
+    waits = _norm_waits(waits)
+    wait_now = [DEFAULT_COMPLETE_WAIT]  # the harness' own record of the completion timeout in effect
 
     def callback(keys, raw):
         if not isinstance(keys, list) or not isinstance(raw, (list, bytearray)):
@@ -210,17 +255,23 @@ def run_stream(stream: bytes, cuts=()):
         if delivered < pos and not loop.armed:
             raise Violation(
                 "pending-without-alarm",
-                f"{stream[delivered:pos]!r} is pending after {what} {stream[:pos]!r} but no completion alarm is armed",
+                f"{stream[delivered:pos]!r} is pending after {what} {stream[:pos]!r} but no completion alarm is armed "
+                f"(completion timeout set: {wait_now[0]!r})",
             )
         for sec, _cb in loop.armed.values():
-            if sec != scr.complete_wait:
-                raise Violation("alarm-delay", f"completion alarm armed with {sec!r}, complete_wait is {scr.complete_wait!r}")
+            # every run of the input callback removes the alarm of the previous one, so whatever is armed
+            # now was armed under the setting in effect now
+            if isinstance(sec, bool) or not isinstance(sec, (int, float)) or sec != wait_now[0]:
+                raise Violation("alarm-delay", f"completion alarm armed with {sec!r}, the completion timeout set is {wait_now[0]!r}")
 
     n = len(stream)
     points = [(p, f) for p, f in cuts if p < n] + [(n, 4 | sum(f & 2 for p, f in cuts if p == n))]
     effective = []
     start = 0
-    for pos, flags in points:
+    for i, (pos, flags) in enumerate(points):
+        if i < len(waits) and waits[i] is not None:
+            scr.set_input_timeouts(max_wait=waits[i][0], complete_wait=waits[i][1])
+            wait_now[0] = waits[i][1]
         wake(stream[start:pos], pos, "feeding")
         start = pos
         if flags & 2:
@@ -610,13 +661,22 @@ def _show_cuts(cuts):
     return "[" + ", ".join(f"{p}{'+wake-up without input' if f & 2 else ''}" for p, f in cuts) + "]"
 
 
+def _show_waits(waits):
+    return f", set_input_timeouts(max_wait, complete_wait) before successive reads: {list(waits)!r}" if waits else ""
+
+
 def check_stream(case):
-    """case: {"enc": ..., "items": [...], "frags": [[[pos, fire], ...], ...]}"""
+    """case: {"enc": ..., "items": [...], "frags": [[[pos, fire], ...], ...], "waits": [...]}
+    "waits" (optional, see _norm_waits) configures the input timeouts of the Screen every fragmentation is
+    fed to; the reference decodes (whole streams, pieces as they stand) use a Screen with the defaults: which
+    events a stream decodes to depends on where the timeout fires, never on the delay it was set to."""
     use_encoding(case["enc"])
     mode, items, stream = build_stream(case)
     n = len(stream)
     if n == 0:
         raise Discard()
+    waits = case.get("waits") or ()
+    _norm_waits(waits)
     memo = {}
 
     def whole(data):
@@ -670,12 +730,12 @@ def check_stream(case):
         if not cuts or key in seen:
             continue
         seen.add(key)
-        ev, eff = run_stream(stream, cuts)
+        ev, eff = run_stream(stream, cuts, waits)
         if not eff:
             if ev != ev_whole:
                 raise Violation(
                     "fragmentation",
-                    f"[{case['enc']}] {stream!r} whole -> {ev_whole!r}; cut at {_show_cuts(cuts)} without timeout -> {ev!r}",
+                    f"[{case['enc']}] {stream!r} whole -> {ev_whole!r}; cut at {_show_cuts(cuts)} without timeout{_show_waits(waits)} -> {ev!r}",
                 )
             continue
         exp, a = [], 0
@@ -685,7 +745,7 @@ def check_stream(case):
         if ev != exp:
             raise Violation(
                 "timeout-decodes-pending",
-                f"[{case['enc']}] {stream!r} cut at {_show_cuts(cuts)}, timeout flushed at {eff}: events {ev!r}; "
+                f"[{case['enc']}] {stream!r} cut at {_show_cuts(cuts)}{_show_waits(waits)}, timeout flushed at {eff}: events {ev!r}; "
                 f"decoding the pieces {[stream[x:y] for x, y in zip([0, *eff], [*eff, n])]!r} as they stand gives {exp!r}",
             )
 
@@ -890,9 +950,29 @@ def cuts_from_ints(vals, n, allow_fire):
     return out
 
 
+def waits_from_int(v):
+    """0 (and one value in four): set_input_timeouts is never called.  Otherwise one call before the first
+    read, and for one value in four of those one or two more entries (a call or none) before the second and
+    third read - the timeouts changed after input has started to arrive."""
+    if v % 4 == 0:
+        return []
+
+    def entry(x):
+        return [MAX_WAITS[(x >> 4) % len(MAX_WAITS)], COMPLETE_WAITS[x % 16 % len(COMPLETE_WAITS)]]
+
+    v >>= 2
+    out = [entry(v)]
+    if (v >> 8) % 4 == 0:
+        for x in ((v >> 10) & 0x7F, (v >> 17) & 0x7F)[: 1 + (v >> 24) % 2]:
+            out.append(None if x % 5 == 4 else entry(x))
+    return out
+
+
 def case_from_ints(t, with_frags=True):
     enc_i, item_vs, frag_vs = t
     case = {"enc": ["utf-8", "utf-8", "euc-jp", "iso8859-1"][enc_i % 4], "items": [item_from_ints(v) for v in item_vs]}
+    if enc_i >> 2 and with_frags:
+        case["waits"] = waits_from_int(enc_i >> 2)
     if with_frags:
         n = len(build_stream(case)[2])
         case["frags"] = [cuts_from_ints(vals, n, fire) for fire, vals in frag_vs] if n else []
@@ -922,8 +1002,9 @@ _frag_big = st.integers(0, 2**192 - 1)
 
 
 def _stream_case(max_frags=6):
+    # first integer: bits 0-1 the encoding, the rest the input-timeout settings (waits_from_int)
     return st.tuples(
-        st.integers(0, 3), st.lists(_item_big, min_size=1, max_size=12), st.lists(_frag_big, min_size=1, max_size=max_frags)
+        st.integers(0, 2**30 - 1).map(lambda v: (v & 3) | (((v >> 2) * 0x9E3779B1 & 0xFFFFFFF) << 2)), st.lists(_item_big, min_size=1, max_size=12), st.lists(_frag_big, min_size=1, max_size=max_frags)
     ).map(_case_from_bigs)
 
 
@@ -985,6 +1066,16 @@ def classify(case):
         for _, f in _norm_cuts(fr, n):
             flags |= f
     out.add("schedule:with-timeouts" if flags & 1 else "schedule:no-timeouts")
+    waits = case.get("waits") or ()
+    if not waits:
+        out.add("complete_wait:never-set(default)")
+    else:
+        for w in waits:
+            if w is not None:
+                out.add("complete_wait:" + ("zero" if w[1] == 0 else "default-value" if w[1] == DEFAULT_COMPLETE_WAIT else "positive")
+                        + ":" + type(w[1]).__name__)
+        if len(waits) > 1 and any(w is not None for w in waits[1:]):
+            out.add("complete_wait:changed-between-reads")
     if flags & 2:
         out.add("schedule:with-wake-up-without-input")
     if is_nontrivial(case):
@@ -1155,6 +1246,31 @@ def stray_high_byte_cases():
                 yield {"enc": enc, "items": [["stray", hb, it], ["raw", "z"]], "frags": [[[1, 0]], [[1, 3]]]}
 
 
+def timeout_value_cases():
+    """every completion-timeout value of COMPLETE_WAITS (zero as int and float, the default spelled out, an
+    int, tiny and large floats; max_wait values in rotation), set with set_input_timeouts before the first
+    read, x every recognised item (_recognised_items) followed by a printable byte x 3 encodings: byte by
+    byte (built in), cut after the first byte with the timeout firing, cut before the item's last byte with a
+    wake-up without input and then the timeout.  Then every ordered pair of values, the second one set between
+    two reads that both end inside a sequence."""
+    items = _recognised_items()
+    for enc in ENCODINGS:
+        mode = {"utf-8": "utf8", "euc-jp": "wide", "iso8859-1": "narrow"}[enc]
+        for j, it in enumerate(items):
+            n = len(build_item(it, mode).data)
+            frags = [[[1, 1]], [[n - 1, 3]]] if n > 2 else [[[1, 1]], [[1, 2], [n, 2]]]
+            for i, cw in enumerate(COMPLETE_WAITS):
+                yield {"enc": enc, "items": [it, ["raw", "z"]], "frags": frags, "waits": [[MAX_WAITS[(i + j) % len(MAX_WAITS)], cw]]}
+    pair_items = [["tab", 0], ["csi1", 5, "A"], ["x10", 32, 40, 50], ["sgr", 0, 12, 7, "M"], ["cpr", 24, 80], ["u8", 0x20AC],
+                  ["meta", ["csit", 5, 2]]]
+    for a in COMPLETE_WAITS:
+        for b in COMPLETE_WAITS:
+            for j, it in enumerate(pair_items):
+                for first in ([None, a], None):
+                    yield {"enc": "utf-8", "items": [it, it], "frags": [[[1, 0], [2, 1]], [[1, 1], [2, 0], [3, 3]]],
+                           "waits": [first, [MAX_WAITS[j % len(MAX_WAITS)], b]]}
+
+
 def mouse_sgr_cases():
     for b in range(128):
         for final in "Mm":
@@ -1183,7 +1299,11 @@ def fuzz_case(data: bytes):
         ]
         if cuts:
             frags.append(cuts)
-    return {"enc": enc, "items": [["raw", stream.decode("latin-1")]], "frags": frags}
+    case = {"enc": enc, "items": [["raw", stream.decode("latin-1")]], "frags": frags}
+    w = data[0] // 3  # 0 (all corpus seeds): the default timeouts, never set
+    if w:
+        case["waits"] = [[MAX_WAITS[(w >> 3) % len(MAX_WAITS)], COMPLETE_WAITS[w % len(COMPLETE_WAITS)]]]
+    return case
 
 
 def _fuzz_seeds():
@@ -1280,6 +1400,13 @@ def shard(ctx):
     for name, cases in sweeps:
         if ctx.failure is None:
             ctx.sweep("stream", cases, nontrivial=is_nontrivial, classify=classify, exhaustive_name=name)
+    if ctx.failure is None:
+        ctx.sweep(
+            "stream", timeout_value_cases(), nontrivial=is_nontrivial, classify=classify,
+            exhaustive_name="every completion-timeout value (0, 0.0, 0.125, 1, 0.01, 1e-06, 2.5, 30.0) set with set_input_timeouts x "
+            "every recognised item x 3 encodings, cut after the first byte / before the last with the timeout firing; every ordered "
+            "pair of values with the second set between two reads",
+        )
     if ctx.failure is None:
         ctx.given("sync", _sync_case(), ctx.scale(100, 3000), classify=classify_sync)
     if ctx.failure is None:
